@@ -134,6 +134,12 @@ def gen(family_mc, base_cfg, consts, tag, env=None, timeout=2400, must_hold=True
     statp = os.path.join(d, "stats.json")
     if os.path.exists(statp) and os.path.exists(cases):
         return cases, json.load(open(statp))
+    # two checks started at the same time must not fill the same cache entry at once
+    import fcntl
+    lockf = open(os.path.join(d, "lock"), "w")
+    fcntl.flock(lockf, fcntl.LOCK_EX)
+    if os.path.exists(statp) and os.path.exists(cases):
+        return cases, json.load(open(statp))
     raw = os.path.join(d, "raw.csv")
     for f in (raw, cases):
         if os.path.exists(f):
@@ -167,7 +173,9 @@ def gen(family_mc, base_cfg, consts, tag, env=None, timeout=2400, must_hold=True
             os.remove(raw)
     stats = {"states": r["distinct"], "transitions": r["generated"], "emitted": n, "distinct_cases": len(seen),
              "tlc_wall_s": round(r["wall"], 1), "spec": family_mc, "consts": consts}
-    json.dump(stats, open(statp, "w"))
+    with open(statp + ".tmp", "w") as fh:
+        json.dump(stats, fh)
+    os.replace(statp + ".tmp", statp)
     return cases, stats
 
 
@@ -250,6 +258,11 @@ class BuildError(Exception):
 
 
 # --------------------------------------------------------------------------- Exec
+def shard_count(n, nshards=NCPU):
+    """Number of harness processes exec_cases uses for n cases (case i runs in process i % count, in index order)."""
+    return max(1, min(nshards, (n + 199) // 200))
+
+
 def exec_cases(binp, case_lines, workdir, nshards=NCPU, timeout=900, env=None):
     """Runs the cases through the real library.  Returns the list of event
     lines, index-aligned with case_lines.  A crash / sanitizer report / hang
@@ -257,7 +270,7 @@ def exec_cases(binp, case_lines, workdir, nshards=NCPU, timeout=900, env=None):
     resumed behind it."""
     ensure(workdir)
     n = len(case_lines)
-    nshards = max(1, min(nshards, (n + 199) // 200))
+    nshards = shard_count(n, nshards)
     shards = [list(range(i, n, nshards)) for i in range(nshards)]
 
     def run(si):
